@@ -62,6 +62,9 @@ SETTERS = [
     "\tcpu 6502\n\tbne *+300\n\tbeq *-300", "\tcpu 68000\n\tbra.s *+400", "\tcpu z80\n\tjr $+1000",
     "\tshared leaked", "\tglobal lk2", "\tpublic lk3", "\tforward lk4", "\tlabel 5", "lkr\treg r3", "lkb\tbit 5", "lkp\tport 7",
     "lks\tsfr 80h", "\tdefine leakdef 5", "leakdef\tdefine 5",
+    # resources that only ever grow during a run: a source line far longer than the initial line buffer, a deep macro nest
+    "\tcpu 6809\n\tfcb " + ",".join(["1"] * 300) + " ; " + "x" * 900, "\tcpu z80\n\tdb " + ",".join(["2"] * 330) + "\n; " + "x" * 3000,
+    "\tcpu z80\nlng\tmacro p\n\tdb " + "1," * 300 + "p\n\tendm\n\tlng " + "9" * 900,
     # relocation bookkeeping registered behind the last data of the file
     "\tcpu 68000\nlkx:\tdc.l 1\n\tds.b 4\n\texport_sym lkx", "\tcpu 8051\n\textern_sym lki\n\tljmp lki\n\tds 2\n\texport_sym lki2",
     "\tcpu 68000\n\trseg\nlkr:\tdc.l lkr\n\tds.b 2\n\texport_sym lkr", "\tcpu z80\nlkz:\tnop\n\tds 3\n\texport_sym lkz\n\tend lkz",
@@ -82,6 +85,9 @@ PROBES = {
     "sx20": "\tcpu sx20\n\tmov w,#5\n\tmov $25,w\n\tdata 10\n",
     "6809": "\tcpu 6809\n\tlda $2012\n\tlda $12\n\tfcb 10\n",
     "msp": "\tcpu msp430\n\tmov #5,r5\n\t.byte 1\n\t.word 2\n",
+    "linebuf": "\tcpu z80\nv\tequ 124\n" + "".join(
+        "lb%d\tmacro pp\n\tdb %s%spp\n\tendm\n\tlb%d v+10\n" % (n, "1," * 400, " " * (n - 4 - 800 - 4), n)
+        for n in (1015, 1016, 1017, 1021, 1022, 1023, 1024, 1025, 1026, 1151, 1152, 1153, 2047, 2048, 2049)),
     "st6": "\tcpu st6210\n\tword 1234h,5678h\n\tbyte 1\n\tascii \"ab\"\n\tld a,12h\n",
     "6805": "\tcpu 6805\n\tfdb $1234\n\tdw $5678\n\tlda $12\n\tlda $1234\n",
     "6811": "\tcpu 6811\n\tfdb $1234\n\tdw $5678\n\tadr $9abc\n\tldaa $12\n\tldaa $1234\n",
